@@ -25,23 +25,28 @@ structure FastW where
   ids : Std.HashMap UInt64 (Array Nat) := {}
   next : Nat := 0
 
-def FastW.addRow (w : FastW) (r : Row) : FastW := Id.run do
-  let mut w := w
-  for (k, v) in r do
-    let h := xxhash64 (encodePair k v)
-    if !w.seen.contains (k, v) then
-      let cols := if w.colVals.contains k then w.cols else w.cols.push k
+/-- one `(column, value)` pair of a row (`next` is the id of the row being added) -/
+def FastW.addPair (w : FastW) (kv : Bytes × Bytes) : FastW :=
+  let h := xxhash64 (encodePair kv.1 kv.2)
+  let w1 : FastW :=
+    if !w.seen.contains (kv.1, kv.2) then
+      let cols := if w.colVals.contains kv.1 then w.cols else w.cols.push kv.1
       -- `alter` updates the array in place (a lookup followed by `insert` would copy it on every push)
-      let colVals := w.colVals.alter k fun
-        | none => some #[(v, h)]
-        | some a => some (a.push (v, h))
-      w := { w with seen := w.seen.insert (k, v) (), colVals := colVals, cols := cols }
-    let next := w.next
-    let ids := w.ids.alter h fun
-      | none => some #[next]
-      | some a => some (a.push next)
-    w := { w with ids := ids }
-  return { w with next := w.next + 1 }
+      let colVals := w.colVals.alter kv.1 fun
+        | none => some #[(kv.2, h)]
+        | some a => some (a.push (kv.2, h))
+      { w with seen := w.seen.insert (kv.1, kv.2) (), colVals := colVals, cols := cols }
+    else w
+  let next := w1.next
+  let ids := w1.ids.alter h fun
+    | none => some #[next]
+    | some a => some (a.push next)
+  { w1 with ids := ids }
+
+def FastW.addRow (w : FastW) (r : Row) : FastW :=
+  -- read `next` BEFORE the fold: a use of `w` after it would keep `w` shared and make every `alter` copy its map
+  let n := w.next + 1
+  { (r.foldl FastW.addPair w) with next := n }
 
 def FastW.toIndex (w : FastW) : Index :=
   let m : Std.HashMap UInt64 Nat := w.ids.fold (fun m h a => m.insert h (natOfIdsArray a)) {}
